@@ -11,7 +11,7 @@ from fractions import Fraction
 import numpy as np
 
 from realcode import (BASIS_WIRE, real_name, wire_name, make_pulse, make_wf, adjusted_duration,
-                      doc_rise_time, doc_phase_jump_time)
+                      doc_rise_time, doc_phase_jump_time, doc_is_detuned_delay)
 from seqcheck import Fail, LIMIT_ERRS, TYPESTATE_ERRS
 
 from pulser import Pulse
@@ -101,7 +101,7 @@ def chan_aux(seq) -> dict:
                 fs = int(s.type.fall_time(ch, in_eom_mode=False))
                 fe = int(s.type.fall_time(ch, in_eom_mode=True)) if ch.supports_eom() else 0
                 slots.append(("P", int(s.ti), int(s.tf), set(s.targets), fs, fe,
-                              bool(_ChannelSchedule.is_detuned_delay(s.type)), float(s.type.phase)))
+                              bool(doc_is_detuned_delay(s.type)), float(s.type.phase)))
             else:
                 slots.append(("T" if s.type == "target" else "D", int(s.ti), int(s.tf), set(s.targets), 0, 0, False, 0.0))
         out[name] = dict(ch=ch, in_eom=in_eom, slots=slots,
@@ -150,7 +150,7 @@ class MonC02(Monitor):
                 is_pulse = isinstance(s.type, Pulse)
                 if is_pulse and s.tf - s.ti != s.type.duration:
                     fails.append(self.F("pulse-duration", f"{name}[{i}]: slot {s.tf - s.ti} vs pulse {s.type.duration}", op=st.op["k"]))
-                inserted = (s.type == "delay" or (is_pulse and _ChannelSchedule.is_detuned_delay(s.type))
+                inserted = (s.type == "delay" or (is_pulse and doc_is_detuned_delay(s.type))
                             or (s.type == "target" and s.tf > s.ti))
                 if inserted and s.tf - s.ti < ch.min_duration:
                     fails.append(self.F("min-duration", f"{name}[{i}]: {s.type if not is_pulse else 'dd'} lasts {s.tf - s.ti} < {ch.min_duration}", op=st.op["k"]))
@@ -1046,12 +1046,17 @@ class MonC03(Monitor):
         names = [real_name(c) for c in op["chs"]]
         if any(n not in self.p.durs for n in names):
             return fails
-        T = max(self.p.durs[n][1 if at_rest else 0] for n in names)
+        # ends (and ends including the pending fall time) recomputed from the timeline, not asked of
+        # the implementation's get_duration
+        ownd = {n: (self.p.aux[n]["end"], end_with_fall(self.p.aux[n])) for n in names if n in self.p.aux}
+        if any(n not in ownd for n in names):
+            return fails
+        T = max(ownd[n][1 if at_rest else 0] for n in names)
         seq = ls.real.seq
         ends = {}
         for n in names:
             ch = seq._schedule[n].channel_obj
-            e0 = self.p.durs[n][0]
+            e0 = ownd[n][0]
             ends[n] = seq.get_duration(n)
             want = e0 + least_valid_gap(ch, T - e0)
             if ends[n] != want:
